@@ -646,6 +646,16 @@ def corpus():
                 c.append({'k': 'G', 'm': m, 'op': op, 'l': [('u', 'TRUE')], 'r': [('b', True)], **cc})
                 c.append({'k': 'G', 'm': m, 'op': op, 'l': [('u', 'A')], 'r': [('q', '', '', 'a')], **cc})
                 c.append({'k': 'G', 'm': m, 'op': op, 'l': [('s', 'Z')], 'r': [('s', '_'), ('s', '[')], **cc})
+                # phase 5: the sequence rules of the value comparison (rules 2-4 of §3.7.1) under both collations
+                c.append({'k': 'V', 'm': m, 'op': op, 'l': [], 'r': [('s', 'A')], **cc})
+                c.append({'k': 'V', 'm': m, 'op': op, 'l': [('n', 'a')], 'r': [], **cc})
+                c.append({'k': 'V', 'm': m, 'op': op, 'l': [], 'r': [], **cc})
+                c.append({'k': 'V', 'm': m, 'op': op, 'l': [('s', 'a'), ('s', 'B')], 'r': [('s', 'A')], **cc})
+                c.append({'k': 'V', 'm': m, 'op': op, 'l': [('s', 'a')], 'r': [('a', 'A'), ('u', 'B')], **cc})
+                c.append({'k': 'V', 'm': m, 'op': op, 'l': [], 'r': [('u', 'a'), ('s', 'A')], **cc})
+                c.append({'k': 'V', 'm': m, 'op': op, 'l': [('n', 'a'), ('n', 'A'), ('n', 'a')], 'r': [], **cc})
+                c.append({'k': 'V', 'm': m, 'op': op, 'l': [('n', 'aBd')], 'r': [('a', 'ABD')], **cc})
+                c.append({'k': 'V', 'm': m, 'op': op, 'l': [('u', 'Z')], 'r': [('n', 'z')], **cc})
         for m in ('v2', 'v2c', 'v31'):      # untypedAtomic cast on either side: QName, anyURI, integer
             for u in (' a ', 'a', '1', ''):
                 c.append({'k': 'G', 'm': m, 'op': op, 'l': [('q', '', '', 'a')], 'r': [('u', u)]})
@@ -761,6 +771,60 @@ def gen_cases(run: Run):
             rr = [sitem() if rng.random() < 0.85 else rand_item(rng) for _ in range(rng.choice([1, 2, 3]))]
         k = 'V' if (len(l) == 1 and len(rr) == 1 and rng.random() < 0.5) else 'G'
         cases.append({'k': k, 'm': m, 'op': rng.choice(OPS), 'l': l, 'r': rr, 'c': 'ci'})
+    # (3c) phase 5: VALUE comparisons of operand SEQUENCES (0..3 items on either side, every combination of
+    #      lengths) under the case-insensitive collation, each with its codepoint twin one time in three:
+    #      string-like items differing in case, some under an implicit timezone with date/time items mixed in
+    for _ in range(run.scale(2400, 24000)):
+        m = rng.choice(['v2c', 'v2', 'v31'])
+
+        def vitem():
+            q = rng.random()
+            if q < 0.8:
+                t = rng.choice(['s', 's', 'u', 'a', 'n', 'n'])
+                v = rng.choice(CASEY)
+                return (t, v.strip() if t == 'a' else v)
+            return rand_item(rng, rng.choice(['D', 'T', 't', 'i', 'b', 's', 'q']) if q < 0.93 else None)
+        nl, nr = rng.choice([0, 1, 1, 1, 2, 3]), rng.choice([0, 1, 1, 1, 2, 3])
+        case = {'k': 'V', 'm': m, 'op': rng.choice(OPS), 'l': [vitem() for _ in range(nl)],
+                'r': [vitem() for _ in range(nr)], 'c': 'ci'}
+        if rng.random() < 0.25:
+            case['z'] = rng.choice(ITZS)
+        cases.append(case)
+        if rng.random() < 0.34:
+            twin = dict(case)
+            del twin['c']
+            cases.append(twin)
+    # (3d) phase 5: GENERAL comparisons of XPath2Parser(compatibility_mode=True) under the case-insensitive collation
+    #      (now specified: `generalAllowedCompatC`), every rule of §3.5.2: a single boolean operand, ordering operators
+    #      (fn:number), `=` / `!=` over pairs of strings / untypedAtomics / nodes / anyURIs differing in case, mixed with
+    #      numbers and booleans (inside the F07-compat trigger: tagged), a third repeated under the codepoint collation
+    for _ in range(run.scale(2400, 24000)):
+        cop = rng.choice(OPS + ['eq', 'ne'] * 2)
+        pool = CASEY if cop in ('eq', 'ne') or rng.random() < 0.3 else ['1', '2', ' 3 ', '10', '1.5', '-0', 'NaN', 'INF', 'A']
+
+        def citem():
+            q = rng.random()
+            if q < 0.75:
+                t = rng.choice(['s', 's', 'u', 'a', 'n', 'n'])
+                v = rng.choice(pool)
+                return (t, v.strip() if t == 'a' else v)
+            return rand_item(rng, rng.choice(['i', 'b', 'f', 'd', 'D', 'q', 's']) if q < 0.95 else None)
+        q = rng.random()
+        if q < 0.12:
+            l, rr = [('b', rng.random() < 0.5)], [citem() for _ in range(rng.choice([0, 1, 1, 2]))]
+            if rng.random() < 0.5:
+                l, rr = rr, l
+        else:
+            l = [citem() for _ in range(rng.choice([0, 1, 1, 2, 3]))]
+            rr = [citem() for _ in range(rng.choice([0, 1, 1, 2, 3]))]
+        case = {'k': 'G', 'm': 'v2c', 'op': cop, 'l': l, 'r': rr, 'c': 'ci'}
+        if rng.random() < 0.15:
+            case['z'] = rng.choice(ITZS)
+        cases.append(case)
+        if rng.random() < 0.34:
+            twin = dict(case)
+            del twin['c']
+            cases.append(twin)
     for c in list(cases):
         if c['k'] in 'GV' and c['m'] != 'v1' and 'c' not in c and rng.random() < 0.12:
             cases.append(dict(c, c='ci'))
@@ -969,6 +1033,34 @@ def compare(run: Run, cases: list, count=True) -> None:
                 st.count('spec:several-outcomes-permitted')
             for tg in trig:
                 st.count('trigger:' + tg)
+        if case['k'] == 'G' and case['m'] == 'v2c' and count:
+            # phase 5: which compatibility rule of §3.5.2 decided (driver `crule=`), per collation, with the outcome
+            fs = dict(p.split('=', 1) for p in ans.split(' ') if '=' in p)
+            st.count(f'compat-collation:{"ci" if case.get("c") == "ci" else "codepoint"}:{fs.get("crule", "?")}:'
+                     f'{"in-trigger" if "F07-compat" in trig else "clean"}:'
+                     f'{impl if impl in ("T", "F") else "error"}')
+        if case['k'] == 'V':
+            # phase 5: which of the rules 2-4 of §3.7.1 decided (Lean `seqRule`, recomputed here from the lengths), the
+            # second transcription of the rules through `pairSpecC` (`valueSeqAllowedC`) and the rule-by-rule outcome
+            fs = dict(p.split('=', 1) for p in ans.split(' ') if '=' in p)
+            rule, spec2 = fs.get('rule', '?'), fs.get('spec2', '?')
+            nl, nr = len(case['l']), len(case['r'])
+            e, lg = nl == 0 or nr == 0, nl > 1 or nr > 1
+            exp_rule = 'empty-or-long' if e and lg else 'empty' if e else 'long' if lg else 'pair'
+            if count:
+                st.count(f'value-seq-rule:{"ci" if case.get("c") == "ci" else "codepoint"}:{rule}:'
+                         f'{min(nl, 3)}x{min(nr, 3)}:{impl if impl in ("EMPTY", "ERR:XPTY0004", "T", "F") else "other"}')
+            ok_rule = {'empty': impl == 'EMPTY', 'long': impl == 'ERR:XPTY0004',
+                       'empty-or-long': impl in ('EMPTY', 'ERR:XPTY0004'), 'pair': impl != 'EMPTY'}.get(exp_rule, False)
+            if rule != exp_rule or spec2 != fs.get('spec', 'NA'):
+                run.disagree(Disagreement(case_json(case), f'rule={exp_rule}', f'rule={rule} spec2={spec2}',
+                                          f'spec={fs.get("spec")}', what='value-seq:spec-coherence',
+                                          site='lean/EPV/Spec/FOCompareSeqC.lean seqRule / valueSeqAllowedC'))
+            elif case['m'] != 'v1' and not ok_rule:
+                _case_by_line[case_json(case)['line']] = case
+                run.disagree(Disagreement(case_json(case), impl, model, exp_rule, what='value-seq-rule:' + exp_rule,
+                                          site='xpath_tokens/base.py get_atomized_operand + xpath2/_xpath2_operators.py '
+                                               'evaluate__value_comparison_operators'))
         site = {'G': 'xpath_tokens/base.py iter_comparison_data + xpath1/_xpath1_operators.py evaluate__comparison_operators',
                 'V': 'xpath2/_xpath2_operators.py evaluate__value_comparison_operators',
                 'B': 'xpath_tokens/base.py boolean_value', 'L': 'xpath1/_xpath1_operators.py and/or'}[case['k']]
@@ -1202,7 +1294,8 @@ def body(run: Run) -> int:
     run.stats.extra['tables'] = translate_tables(run)
     run.trusted_base.append('translator harness/c07.py::translate_tables (isinstance / class matrices of the live '
                             'datatype classes printed as Lean literals)')
-    run.prove(['EPV.Props.C07', 'EPV.Props.C07Tables'], ['EPV.Spec.FOCompare', 'EPV.Lemmas.CompareFindings'])
+    run.prove(['EPV.Props.C07', 'EPV.Props.C07Tables', 'EPV.Props.C07SeqColl', 'EPV.Props.C07CompatColl'],
+              ['EPV.Spec.FOCompare', 'EPV.Spec.FOCompareSeqC', 'EPV.Spec.FOCompareCompatC', 'EPV.Lemmas.CompareFindings'])
     try:
         if getattr(run, 'replay', None):
             import json
